@@ -39,8 +39,13 @@ def run(tier):
     crate_dir = os.path.join(WIT, "pos")
     configs = [("plain", (), ())] if tier == "quick" else [("plain", (), ()), ("unimock_test", ("unimock",), ("test",))]
     total = 0
-    for cfgname, feats, cfgs in configs:
-        R, T, attrs = load_pair(rep, crate_dir, "wit_pos", feats, cfgs)
+    from ..modgen import generate as modseq_generate
+    modseq_dir = modseq_generate(tier)[0]
+    crates = [(crate_dir, "wit_pos", cfgname, feats, cfgs) for cfgname, feats, cfgs in configs]
+    # script-enumerated module item sequences (vlib/modgen.py): every item of every sequence re-emitted unchanged
+    crates.append((modseq_dir, "wit_modseq", "plain", (), ()))
+    for cdir, cname, cfgname, feats, cfgs in crates:
+        R, T, attrs = load_pair(rep, cdir, cname, feats, cfgs)
         rmods = {it.kind_and_name()[1]: it for it in R if it.kind_and_name()[0] == "mod"}
         nmods = 0
         for t in T:
